@@ -186,7 +186,7 @@ def record_gm(sp, rs, k):
         Fk = F(alg.x)
         bound = Leff * D2 / (2 * kk) if not acc else 2 * Leff * D2 / (kk + 1) ** 2
         ev.append({"e": "gm", "iter": int(kk), "ratio": fx(max(Fk - Fs, 0) / max(bound, 1e-300)), "up": fx(max(Fk - Fprev, 0) / F0gap), "mdist": 0, "prod": 0,
-                   "saddle_defect": 0, "final_dist": 0, "in_place": 1})
+                   "saddle_defect": 0, "final_dist": 0, "caller_prod": 0, "in_place": 1})
         Fprev = Fk
     # fixed point: one update started at the minimiser
     xf = xs.copy()
@@ -194,7 +194,7 @@ def record_gm(sp, rs, k):
     a2.update()
     defect = np.linalg.norm(a2.x - xs) / max(np.linalg.norm(xs), 1.0)
     ev.append({"e": "end", "iter": int(alg.iter), "ratio": 0, "up": 0, "mdist": 0, "prod": 0, "saddle_defect": fx(defect),
-               "final_dist": fx(np.sqrt(max(Fprev - Fs, 0) / F0gap)), "in_place": int(alg.x is x or np.array_equal(np.asarray(x), np.asarray(alg.x)))})
+               "final_dist": fx(np.sqrt(max(Fprev - Fs, 0) / F0gap)), "caller_prod": 0, "in_place": int(alg.x is x or np.array_equal(np.asarray(x), np.asarray(alg.x)))})
     return {"id": "gm%d" % k, "accelerate": int(acc), "constant_steps": 1, "max_iter": K, "final_tol": 1000000000, "ev": ev,
             "meta": {"n": n, "g": gk, "complex": cplx, "kind": kind, "accelerate": acc, "alpha_L": round(alpha * L, 2)}}
 
@@ -267,7 +267,7 @@ def record_pdhg(sp, rs, k, force_mode=None):
             # tau_i * sigma_j is invariant under the acceleration for every pair (both are rescaled uniformly)
             pr = fx(abs(np.mean(np.asarray(alg.tau, dtype=float)) * np.mean(np.asarray(alg.sigma, dtype=float)) / ts0 - 1)
                     + float(np.max(np.abs(np.asarray(alg.tau, dtype=float) / np.asarray(tau, dtype=float) * np.mean(np.asarray(alg.sigma, dtype=float)) / np.mean(np.asarray(sigma, dtype=float)) - 1))))
-            ev.append({"e": "pd", "iter": int(kk), "ratio": 0, "up": 0, "mdist": md, "prod": pr, "saddle_defect": 0, "final_dist": 0, "in_place": 1})
+            ev.append({"e": "pd", "iter": int(kk), "ratio": 0, "up": 0, "mdist": md, "prod": pr, "saddle_defect": 0, "final_dist": 0, "caller_prod": 0, "in_place": 1})
         xprev = alg.x.copy()
     # saddle point is a fixed point
     x2, u2 = xs.copy(), us.copy()
@@ -276,7 +276,12 @@ def record_pdhg(sp, rs, k, force_mode=None):
     a2.update()
     defect = (np.linalg.norm(a2.x - xs) + np.linalg.norm(a2.u - us)) / max(np.linalg.norm(xs) + np.linalg.norm(us), 1.0)
     fd = np.linalg.norm(alg.x - xs) / max(np.linalg.norm(xs), 1e-12)
-    ev.append({"e": "end", "iter": int(alg.iter), "ratio": 0, "up": 0, "mdist": 0, "prod": 0, "saddle_defect": fx(defect), "final_dist": fx(fd),
+    # array-valued steps handed in by the caller (the class rescales them in place under acceleration): whatever happens to the
+    # caller's arrays, the PAIR must stay what it was - tau_i * sigma_j unchanged - so that it is still admissible for a later use
+    caller_prod = 0.0
+    if isinstance(tau_a, np.ndarray) and isinstance(sig_a, np.ndarray):
+        caller_prod = float(np.max(np.abs(np.outer(np.asarray(tau_a, dtype=float), np.asarray(sig_a, dtype=float)) / np.outer(np.asarray(tau, dtype=float), np.asarray(sigma, dtype=float)) - 1)))
+    ev.append({"e": "end", "iter": int(alg.iter), "ratio": 0, "up": 0, "mdist": 0, "prod": 0, "saddle_defect": fx(defect), "final_dist": fx(fd), "caller_prod": fx(caller_prod),
                "in_place": int((alg.x is x or np.array_equal(np.asarray(x), np.asarray(alg.x))) and (alg.u is u or np.array_equal(np.asarray(u), np.asarray(alg.u))))})
     # only the first 400 updates are logged: iter of the end event is not checked against the log
     return {"id": "pd%d" % k, "accelerate": int(accel), "constant_steps": int(not accel), "max_iter": K, "final_tol": 100000 if not accel else (ACCEL_FINAL_TOL if mode.startswith("accel_p") else ACCEL_DUAL_FINAL_TOL), "ev": ev, "final_dist_float": float(fd),
